@@ -1,4 +1,4 @@
-//@ props=C07,C08,C09,C18
+//@ props=C07,C08,C09,C12,C18
 //! ASSUMED model of `core::simd::Simd<u64, N>` (nightly portable SIMD), used by contracts/blake2b_simd.vc.
 //!
 //! Verus has no model of std::simd. The type is declared opaque (external_type_specification) and gets a GHOST
